@@ -174,35 +174,47 @@ func (r *QueryResponse) ResponseCh() <-chan NodeResponse {
 }
 
 // sendResponse sends a response on the response channel ensuring the channel is not closed.
-func (r *QueryResponse) sendResponse(nr NodeResponse) error {
+// The duplicate test, the delivery and the bookkeeping happen in one critical
+// section, so a response that arrives concurrently over two paths (direct and
+// relayed) is delivered at most once. It reports whether the response was a
+// duplicate.
+func (r *QueryResponse) sendResponse(nr NodeResponse) (bool, error) {
 	r.closeLock.Lock()
 	defer r.closeLock.Unlock()
 	if r.closed {
-		return nil
+		return false, nil
+	}
+	if _, ok := r.responses[nr.From]; ok {
+		return true, nil
 	}
 	select {
 	case r.respCh <- nr:
 		r.responses[nr.From] = struct{}{}
 	default:
-		return errors.New("serf: Failed to deliver query response, dropping")
+		return false, errors.New("serf: Failed to deliver query response, dropping")
 	}
-	return nil
+	return false, nil
 }
 
-// sendResponse sends a response on the response channel ensuring the channel is not closed.
-func (r *QueryResponse) sendAck(nr *messageQueryResponse) error {
+// sendAck sends an ack on the ack channel ensuring the channel is not closed.
+// Like sendResponse it detects duplicates inside the critical section and
+// reports them.
+func (r *QueryResponse) sendAck(nr *messageQueryResponse) (bool, error) {
 	r.closeLock.Lock()
 	defer r.closeLock.Unlock()
 	if r.closed {
-		return nil
+		return false, nil
+	}
+	if _, ok := r.acks[nr.From]; ok {
+		return true, nil
 	}
 	select {
 	case r.ackCh <- nr.From:
 		r.acks[nr.From] = struct{}{}
 	default:
-		return errors.New("serf: Failed to deliver query response, dropping")
+		return false, errors.New("serf: Failed to deliver query response, dropping")
 	}
-	return nil
+	return false, nil
 }
 
 // NodeResponse is used to represent a single response from a node
